@@ -36,7 +36,8 @@ func TestMain(m *testing.M) {
 			"Class counts of the octree sub-check other than set/depth/ctor/n/leaf are per query, not per case. " +
 			"Non-trivial (octree) = at least two elements certainly share a leaf (depth 0, or more elements than 8^depth leaves, or two elements with identical boxes) or a query point / ray origin lies outside the tree bounds; " +
 			"non-trivial (bvh) = at least two triangles and a judged ray that hits at least one of them. Distinct by case JSON. " +
-			"One octree case in sixteen repeats its queries from 2-6 goroutines on the same tree (class shared-tree/concurrent-queries; ElementsIntersectingRay excluded there, it collects into per-node buffers by design). Every element's own closest point is judged against the geometry of the primitive.",
+			"One octree case in sixteen repeats its queries from 2-6 goroutines on the same tree (class shared-tree/concurrent-queries; ElementsIntersectingRay excluded there, it collects into per-node buffers by design). Every element's own closest point is judged against the geometry of the primitive. " +
+			"Sub-check octree-large: 181..20 000 recipe-built elements (grid or 1..27 clusters; automatic depths 2..5). When every coordinate of set and query point is a multiple of 1/128 the within-range decision is judged without a band (class withinrange/exact-arithmetic-no-band; radii equal to an element's box distance are drawn: withinrange/element-exactly-on-the-radius).",
 		Assumptions: []string{
 			"element sets are non-empty (an empty mesh yields a nil tree) and all coordinates, radii and ray parameters are finite; ray directions are non-zero; ray range min < max",
 			"ElementsWithinRange and ElementsContainingPoint are specified on element bounding boxes (as implemented and as their callers use them), the scan applies the same predicate to Element.BoundingBox()",
